@@ -23,6 +23,7 @@ import (
 	sdk "github.com/cosmos/cosmos-sdk/types"
 
 	"github.com/EscanBE/evermint/v12/rpc/ethereum/pubsub"
+	"github.com/EscanBE/evermint/v12/verifhook"
 	evmtypes "github.com/EscanBE/evermint/v12/x/evm/types"
 )
 
@@ -235,6 +236,7 @@ func (es *EventSystem) eventLoop() {
 				es.topicChans[f.event] = ch
 			}
 			es.indexMux.Unlock()
+			verifhook.At("filters.eventLoop.installed")
 			close(f.installed)
 		case f := <-es.uninstall:
 			es.indexMux.Lock()
@@ -257,6 +259,7 @@ func (es *EventSystem) eventLoop() {
 
 				ch, ok := es.topicChans[f.event]
 				if ok {
+					verifhook.At("filters.eventLoop.beforeCloseTopic")
 					es.eventBus.RemoveTopic(f.event)
 					close(ch)
 					delete(es.topicChans, f.event)
@@ -297,6 +300,7 @@ func (es *EventSystem) consumeEvents() {
 			}
 
 			// gracefully handle lagging subscribers
+			verifhook.At("filters.consumeEvents.beforeSend")
 			t := time.NewTimer(time.Second)
 			select {
 			case <-t.C:
